@@ -343,6 +343,42 @@ def stream_categorical(R, categorical_ndarray):
         if not ok:
             R.fail('oracle', {'stream': 'categorical_derived', 'values': values, 'derived': how},
                    {'derived_values': dvals, 'categories': cats, 'codes': codes.tolist()})
+    # n-d arrays in C and Fortran memory order (and transposed / strided views of them): categories[codes] == values
+    # must hold element-wise whatever the memory layout
+    ncases = []
+    for al in alphabets[:3]:
+        for (r, c) in [(2, 2), (2, 3), (3, 2)]:
+            for vals in itertools.product(range(3), repeat=r * c):
+                if rng.random() > R.pick(0.05, 0.25):
+                    continue
+                base = np.array([al[v] for v in vals]).reshape(r, c)
+                for how, arr in (('C', base), ('F', np.asfortranarray(base)), ('T', base.T), ('T-of-F', np.asfortranarray(base).T),
+                                 ('strided', np.array([al[v] for v in vals + vals]).reshape(r, 2 * c)[:, ::2])):
+                    ncases.append((al, how, arr))
+    lines = []
+    for al, how, arr in ncases:
+        rank = {v: i for i, v in enumerate(sorted(al))}
+        lines.append(enc((7, [Z([rank[v] for v in arr.ravel().tolist()])])))
+    outs = R.model(lines)
+    for (al, how, arr), o in zip(ncases, outs):
+        c = categorical_ndarray(arr)
+        cats = c.categories.tolist()
+        codes = np.asarray(c.codes)
+        srt = sorted(al)
+        vals2 = np.asarray(arr)
+        R.count(('catnd', tuple(map(str, al)), how, tuple(vals2.ravel().tolist()), vals2.shape), nontrivial=True,
+                stream='categorical_nd', layout=how)
+        m_cats = [srt[i] for i in to_zs(kids(o)[0])]
+        m_codes = to_zs(kids(o)[1])
+        if cats != m_cats or codes.shape != vals2.shape or [int(x) for x in codes.ravel()] != m_codes:
+            R.fail('correspondence', {'stream': 'categorical_nd', 'layout': how, 'values': vals2.tolist()},
+                   {'model': [m_cats, m_codes], 'impl': [cats, codes.tolist()]})
+        ok = cats == sorted(set(vals2.ravel().tolist())) and codes.shape == vals2.shape and \
+            all(cats[int(codes[idx])] == vals2[idx] for idx in np.ndindex(vals2.shape))
+        if not ok:
+            R.fail('oracle', {'stream': 'categorical_nd', 'layout': how, 'values': vals2.tolist()},
+                   {'categories': cats, 'codes': codes.tolist()})
+    R.stream('categorical_nd', cases=len(ncases), bound='2x2, 2x3, 3x2 arrays over 3 alphabets (sampled), in C / Fortran order, transposed and strided views')
     R.stream('categorical', cases=len(cases), exhaustive=True, derived_cases=len(dcases),
              bound='all arrays of length 1..%d over 5 three-letter alphabets (str, int, mixed width); derived arrays '
                    '(reverse, permutation, roll, slice, stride, copy, sort; 1-d only: a reshaped 2-d array with preset categories raises in index_lookup, outside the stated domain) after the parent codes were read' % Lmax)
